@@ -304,6 +304,8 @@ type Session struct {
 	// aborted is timing dependent in PostgreSQL; here the scheduler decides.
 	DeadlockVictim bool
 	seqCached      map[string]*seqCache // values of CACHE n sequences preallocated by this session
+	advWait        bool                 // parked in Block for the advisory lock advWaitKey
+	advWaitKey     int64
 }
 
 // Xid is the id of the session's open transaction (0 when none).
@@ -447,15 +449,34 @@ func (s *Session) advisoryLock(key int64, xact bool) {
 				on = l.holder.tx.id
 			}
 			s.Waiting = on
+			s.advWait, s.advWaitKey = true, key
 			db.mu.Unlock()
 			db.Sched.Block(s, on)
 			db.mu.Lock()
+			s.advWait = false
 			s.checkVictim()
 			s.Waiting = 0
 		} else {
 			db.cond.Wait()
 		}
 	}
+}
+
+// AdvisoryWait tells a Scheduler what a session parked in Block is waiting for when it is an advisory lock: the session that
+// holds the key now (nil when the key has become free).  A session-level lock (pg_advisory_lock) is not tied to a transaction:
+// its holder may be between transactions, so the transaction id passed to Block says nothing about when the wait ends
+// (Explicit Locking 13.3.5: a session-level advisory lock is held until explicitly released or the session ends).
+func (s *Session) AdvisoryWait() (waiting bool, holder *Session, sessionLevel bool) {
+	db := s.db
+	db.mu.Lock()
+	defer db.mu.Unlock()
+	if !s.advWait {
+		return false, nil, false
+	}
+	if l := db.advisory[s.advWaitKey]; l != nil && l.holder != s {
+		return true, l.holder, !l.xact
+	}
+	return true, nil, false
 }
 func (s *Session) tryAdvisoryLock(key int64, xact bool) bool {
 	l := s.db.advisory[key]
